@@ -2704,6 +2704,7 @@ static void struct_members(Token **rest, Token *tok, Type *ty) {
       mem->name = mem->ty->name;
       mem->idx = idx++;
       mem->align = attr.align ? attr.align : mem->ty->align;
+      mem->explicit_align = attr.align;
 
       if (consume(&tok, tok, ":")) {
         Token *start = tok;
@@ -2850,10 +2851,14 @@ static Type *struct_decl(Token **rest, Token *tok) {
       bits += mem->bit_width;
     } else {
       // Even in a packed struct a non-bit-field member starts at a
-      // byte boundary.
-      bits = align_to(bits, ty->is_packed ? 8 : mem->align * 8);
+      // byte boundary, and an explicit _Alignas is still honored.
+      int align = ty->is_packed ? MAX(1, mem->explicit_align) : mem->align;
+      bits = align_to(bits, align * 8);
       mem->offset = bits / 8;
       bits += mem->ty->size * 8;
+
+      if (ty->is_packed && ty->align < mem->explicit_align)
+        ty->align = mem->explicit_align;
     }
 
     // Unnamed bit-fields affect the position of what follows them,
@@ -2883,6 +2888,8 @@ static Type *union_decl(Token **rest, Token *tok) {
   for (Member *mem = ty->members; mem; mem = mem->next) {
     if (!ty->is_packed && ty->align < mem->align)
       ty->align = mem->align;
+    if (ty->is_packed && ty->align < mem->explicit_align)
+      ty->align = mem->explicit_align;
     if (ty->size < mem->ty->size)
       ty->size = mem->ty->size;
   }
